@@ -120,6 +120,7 @@ CallLines(gr, m, name, hs, depth) ==
                 LET own == (IF d = "c" /\ gr.cbare THEN << <<"c", "pbare">> >> ELSE << <<d, "p", XVal(Resolve(gr, d, "x")), hs[d]>> >>)
                            \o (IF d = "b" /\ Resolve(gr, "b", "y") # "" THEN << <<"b", "y", 77>> >> ELSE <<>>)
                            \o (IF gr.host[d] # "none" THEN << <<d, "tag", gr.host[d]>> >> ELSE <<>>)
+                           \o (IF d = "b" /\ gr.tval THEN << <<"b", "T", 55>> >> ELSE <<>>)
                     r1 == CallLines(gr, d, "f", hs, depth + 1)
                     \* an entry point also calls the other library's entry point if its module imports it
                     \* (so a library may only be reachable - and initialised - through another library)
@@ -137,6 +138,9 @@ MainLines(gr) ==
         r5 == CallLines(gr, "main", "f", r4.hist, 0)
         yl == (IF Resolve(gr, "main", "y") # "" THEN << <<"main", "y", 77>> >> ELSE <<>>)
               \o (IF gr.host.main # "none" THEN << <<"main", "tag", gr.host.main>> >> ELSE <<>>)
+              \* types and values are named apart: importing the TYPE T from b brings no value along, main's own global T (11)
+              \* and b's private global T (55) stay what they are
+              \o (IF gr.tval THEN << <<"main", "T", 11>> >> ELSE <<>>)
         tl == IF <<"T", "b">> \in gr.imp.main THEN << <<"main", "t", 5>> >> ELSE <<>> IN
     r1.lines \o r2.lines \o r3.lines \o r4.lines \o xl \o yl \o r5.lines \o tl
 
@@ -149,13 +153,13 @@ Hosts == {"none", "hosta", "hostb"}
 HostN(h) == CASE h = "none" -> 0 [] h = "hosta" -> 1 [] h = "hostb" -> 2
 BN(x) == IF x THEN 1 ELSE 0
 \* (the graph is chosen by an action, not in Init: TLC computes initial states on one thread)
-NoGraph == [f |-> [main |-> "none", b |-> "none", c |-> "none"], x |-> [b |-> "priv", c |-> "priv"], t |-> "none", y |-> "none", host |-> [main |-> "none", b |-> "none", c |-> "none"], hasc |-> FALSE, cbare |-> FALSE, mainb |-> TRUE,
+NoGraph == [f |-> [main |-> "none", b |-> "none", c |-> "none"], x |-> [b |-> "priv", c |-> "priv"], t |-> "none", y |-> "none", host |-> [main |-> "none", b |-> "none", c |-> "none"], tval |-> FALSE, hasc |-> FALSE, cbare |-> FALSE, mainb |-> TRUE,
             imp |-> [main |-> {}, b |-> {}, c |-> {}]]
 Init == g = NoGraph /\ inited = <<>> /\ hist = [m \in Mods |-> 0] /\ out = <<>> /\ phase = "pick"
 Pick ==
     /\ phase = "pick"
     /\ \E fm \in {"none", "priv"}, fb \in Vis, fc \in Vis, xb \in {"priv", "pub"}, xc \in {"priv", "pub"}, tb \in Vis, yc \in Vis, hc \in BOOLEAN, cb \in BOOLEAN, mb \in BOOLEAN,
-          hm \in Hosts, hb \in Hosts, hcc \in Hosts :
+          hm \in Hosts, hb \in Hosts, hcc \in Hosts, tv \in BOOLEAN :
          \* (a bare c has no globals at all - nothing to initialise -, no f, and nothing but pc to import)
          /\ cb => (hc /\ fc = "none" /\ xc = "priv")
          \* (main leaves b to c only if there is a c)
@@ -164,9 +168,11 @@ Pick ==
          /\ yc # "none" => (fm = "none" /\ tb = "none" /\ xb = "priv" /\ hc /\ ~cb)
          /\ (hm # "none" \/ hb # "none" \/ hcc # "none") => (fm = "none" /\ fb = "none" /\ tb = "none" /\ xb = "priv" /\ xc = "priv" /\ yc = "none")
          /\ hcc # "none" => (hc /\ ~cb)
+         \* (main and b each have a VALUE named T as well: only where b has the type T)
+         /\ tv => (tb # "none" /\ fm = "none" /\ xb = "priv" /\ yc = "none" /\ hm = "none" /\ hb = "none" /\ hcc = "none")
          /\ (VisN(fb) + 3 * VisN(fc) + 9 * VisN(tb) + 27 * BN(hc) + 54 * BN(xb = "pub") + 108 * BN(xc = "pub") + 216 * VisN(fm)
              + 5 * HostN(hm) + 7 * HostN(hb) + 11 * HostN(hcc) + 13 * VisN(yc)) % Slices = Slice
-         /\ g' = [NoGraph EXCEPT !.host = [main |-> hm, b |-> hb, c |-> hcc], !.f = [main |-> fm, b |-> fb, c |-> fc], !.x = [b |-> xb, c |-> xc], !.t = tb, !.y = yc, !.hasc = hc, !.cbare = cb, !.mainb = mb]
+         /\ g' = [NoGraph EXCEPT !.host = [main |-> hm, b |-> hb, c |-> hcc], !.tval = tv, !.f = [main |-> fm, b |-> fb, c |-> fc], !.x = [b |-> xb, c |-> xc], !.t = tb, !.y = yc, !.hasc = hc, !.cbare = cb, !.mainb = mb]
     /\ phase' = "pick2" /\ UNCHANGED <<inited, hist, out>>
 YOn(gr) == gr.f.main = "none" /\ gr.t = "none" /\ gr.x.b = "priv" /\ gr.hasc /\ ~gr.cbare
 PickImports ==
@@ -211,7 +217,7 @@ ResolvesToDefiningModule ==
         LET d == Resolve(g, m, n) IN d # "" => Defined(g, d, n) # "none"
 
 Finished == phase \in {"done", "rejected"}
-Export == Finished => PrintT(<<"CASE", ToJson([g |-> [f |-> g.f, x |-> g.x, t |-> g.t, y |-> g.y, host |-> g.host, cbare |-> g.cbare, mainb |-> g.mainb, hasc |-> g.hasc,
+Export == Finished => PrintT(<<"CASE", ToJson([g |-> [f |-> g.f, x |-> g.x, t |-> g.t, y |-> g.y, host |-> g.host, tval |-> g.tval, cbare |-> g.cbare, mainb |-> g.mainb, hasc |-> g.hasc,
                                                       imp |-> [m \in Mods |-> SetToSeq(g.imp[m])]],
                                                accepted |-> Accepted(g), unspecified |-> Unspecified(g), errors |-> SetToSeq(AllErrors(g)),
                                                out |-> IF Accepted(g) /\ ~Unspecified(g) THEN MainLines(g) ELSE <<>>])>>)
